@@ -56,7 +56,7 @@ package dnsforward
 //@   ensures synthReply(r0, req, 5)
 
 //@ func (s *Server) NewMsgSERVFAIL(req *dns.Msg) (resp *dns.Msg)
-//@   property C03, C16
+//@   property C03, C16, C04
 //@   modifies nothing
 //@   ensures synthReply(resp, req, 2)
 
@@ -86,7 +86,7 @@ package dnsforward
 // for a request without one: request ids start again from 1 whenever the proxy is rebuilt, and an entry left over from an
 // earlier request with the same id would attach somebody's ClientID to a plain request.)
 //@ func (s *Server) HandleBefore(_p0 *proxy.Proxy, pctx *proxy.DNSContext) (err error)
-//@   property C03, C16
+//@   property C03, C16, C04
 //@   requires pctx.Addr.Addr() != netip.Addr{}
 //@   requires !held(s.serverLock) && !rheld(s.serverLock)
 //@   modifies *
@@ -143,6 +143,13 @@ package dnsforward
 //@   ensures good-path-ok: dohHasID(pctx) ==> err == nil && clientID == strings.ToLower(seg(dohPath(pctx), 1))
 //@   ensures bare-path: pctx.HTTPRequest != nil && nseg(dohPath(pctx)) == 1 && seg(dohPath(pctx), 0) == "dns-query" ==> err == nil && clientID == ""
 
+// Over TLS the server name is the one of the handshake, whatever it is (empty included): the Host header is client
+// chosen text and stands in only for plain-HTTP DoH behind a proxy.
+//@ func clientServerNameFromHTTP(r *http.Request) (srvName string, fromHost bool, err error)
+//@   property C16
+//@   nullable r.TLS
+//@   ensures tls-name-only-from-the-handshake: old(r.TLS) != nil ==> err == nil && !fromHost && srvName == old(r.TLS.ServerName)
+//@   modifies nothing
 // Reads connection state only (TLS / QUIC / HTTP request objects); body is I/O glue and is not verified.
 //@ func clientServerName(pctx *proxy.DNSContext, proto proxy.Proto) (srvName string, err error)
 //@   trusted
@@ -211,6 +218,18 @@ package dnsforward
 // (home.onConfigModified -> config.write -> WriteDiskConfig): it must be invoked with no lock held.
 //@ package-callsite fieldcall:github.com/AdguardTeam/AdGuardHome/internal/dnsforward.ServerConfig.ConfigModified() requires nolocks()
 //@ sweep C05 fieldcall:github.com/AdguardTeam/AdGuardHome/internal/dnsforward.ServerConfig.ConfigModified
+
+// ---- C01 (pause): a pause that has run out means protection is on ----
+// While a pause is stored the switch itself is off; the goroutine that flips it back runs later.  Until then the
+// status handed to the request pipeline must already say "on" - otherwise the first queries after the end of a pause
+// are still forwarded unfiltered.
+//@ func (s *Server) UpdatedProtectionStatus() (enabled bool, disabledUntil *time.Time)
+//@   property C01
+//@   callsites-only
+//@   requires !held(s.serverLock) && !rheld(s.serverLock)
+//@   requires !held(s.dnsFilter.confMu) && !rheld(s.dnsFilter.confMu)
+//@   ensures must-report-on-after-an-expired-pause: disabledUntil == nil && old(s.dnsFilter.conf.ProtectionDisabledUntil) != nil ==> enabled
+//@   modifies *
 
 // ---- C02: upstream answers revealing a blocked CNAME target, address or HTTPS hint are replaced ----
 // ruleBlocked abstracts the verdict of the rule engines (urlfilter) for one name or address under the client's settings.
@@ -283,8 +302,11 @@ package dnsforward
 //@   ensures replaced: res == resultCodeSuccess && dctx.proxyCtx.Res != old(dctx.proxyCtx.Res) ==> fresh(dctx.proxyCtx.Res) && dctx.origResp == old(dctx.proxyCtx.Res) && dctx.result != nil && dctx.result.IsFiltered
 //@   modifies *
 
+// (C06: the CNAME record put in front of an upstream answer to a rewritten name is owned by the name the client asked -
+// it is generated after the original question has been put back.)
 //@ func (s *Server) processFilteringAfterResponse(dctx *dnsContext) (rc resultCode)
-//@   property C01, C02
+//@   property C01, C02, C06
+//@   callsite (*github.com/AdguardTeam/AdGuardHome/internal/dnsforward.Server).genAnswerCNAME(ss, req, cn) requires owned-by-the-original-question: req.Question[0].Name == dctx.origQuestion.Name
 //@   requires !held(s.serverLock) && !rheld(s.serverLock)
 //@   requires dctx.result != nil && dctx.setts != nil && dctx.proxyCtx != nil && dctx.proxyCtx.Res != nil && dctx.proxyCtx.Req != nil && len(dctx.proxyCtx.Req.Question) > 0 && len(dctx.proxyCtx.Res.Question) > 0 && dnsFilterIdle(s)
 //@   ensures stage-runs: !(old(dctx.result.Reason) == filtering.NotFilteredAllowList || old(dctx.result.Reason) == filtering.Rewritten || old(dctx.result.Reason) == filtering.RewrittenRule || old(dctx.result.Reason) == filtering.FilteredSafeSearch) && old(dctx.protectionEnabled) && old(dctx.responseFromUpstream) && old(dctx.setts.FilteringEnabled) && rc == resultCodeSuccess && dctx.proxyCtx.Res == old(dctx.proxyCtx.Res) ==> (forall k int :: 0 <= k && k < len(old(dctx.proxyCtx.Res.Answer)) ==> !rrBlocked(old(dctx.proxyCtx.Res.Answer)[k], old(dctx.setts)))
